@@ -333,8 +333,8 @@ PROPS = {
    text='The drivers of the other properties are rebuilt with -fsanitize=undefined,float-cast-overflow,address -fsanitize-recover=all and their domains are enumerated again (domains larger than the cap on the sub-lattice of every s-th index); the weak hooks __ubsan_on_report / __asan_on_error record kind, file, line and the current (op, input), so every distinct undefined operation inside a glm/ source file within a documented domain becomes a replayable violation. Known findings are keyed by (file, line, kind). Sanitizer builds also with aligned SIMD types (SSE2, AVX2) and with operator swizzles, where the vector under test ends an exactly-sized heap block so that any access past the object is reported.',
    rule='operation table x documented-precondition filter of each driver (out-of-domain inputs are skipped before GLM is called) x sanitizer configurations {clang pure, clang AVX2 in thorough}; evaluations are instrumented executions.'),
  'C16': dict(src='drivers/c16.cpp', level='exploration', parts=6, flags=['-O0'],
-   configs=['default', 'swizzle', 'xyzw_only', 'size_t_length', 'quat_wxyz', 'ctor_init', 'cxx98', 'intr_sse2', 'intr_avx', 'intr_avx2', 'intr_avx2_defaligned', 'swizzle_intr', 'intr_sse2_wxyz', 'intr_avx2_wxyz', 'intr_sse2_clang'],
-   configs_quick=['default', 'xyzw_only', 'size_t_length', 'quat_wxyz', 'intr_sse2', 'intr_avx2_defaligned', 'swizzle_intr', 'intr_sse2_wxyz'],   # *_wxyz: the quaternion order switch combined with SIMD storage
+   configs=['default', 'swizzle', 'xyzw_only', 'size_t_length', 'quat_wxyz', 'ctor_init', 'cxx98', 'intr_sse2', 'intr_avx', 'intr_avx2', 'intr_avx2_defaligned', 'swizzle_intr', 'intr_sse2_wxyz', 'intr_avx2_wxyz', 'intr_sse2_clang', 'intr_sse2_aligned_gentypes'],
+   configs_quick=['default', 'xyzw_only', 'size_t_length', 'quat_wxyz', 'intr_sse2', 'intr_avx2_defaligned', 'swizzle_intr', 'intr_sse2_wxyz', 'intr_sse2_aligned_gentypes'],   # *_wxyz: the quaternion order switch combined with SIMD storage
    technique='exhaustive enumeration of the program space: every vec<L,T,Q>, mat<C,R,T,Q>, qua<T,Q> instantiation (L 1..4, C,R 2..4, 11 element types, packed and - with intrinsics - aligned qualifiers) x 15 build configurations, each layout fact observed by executing the generated program and compared with the documented contract',
    text='For every instantiation and configuration: sizeof, alignof, component addresses (&v[i] == &v.x + i, column addresses), named-member order incl. quaternion x,y,z,w / w,x,y,z, value_ptr aliasing value_ptr(m)[c*R+r] == m[c][r], byte image through value_ptr vs operator[], make_vec/make_mat/make_quat round trips, length() value and type (int / size_t), trivially-copyable round trip. Facts are observed at run time, so one wrong fact does not hide the rest; 462 (packed) or 924 (with aligned types) instantiations per configuration, complete. A table of 804 alias names of glm/fwd.hpp and gtc/type_aligned.hpp, generated from the naming grammar, is compared with the instantiation each name spells (is_same, sizeof, alignof); SIMD x WXYZ and clang configurations added (15 in the thorough tier).',
    rule='INSTANTIATIONS = complete table of type descriptors (kind|C|R|T|Q) per configuration; every fact op enumerates the whole table; quick and thorough are the same complete set.'),
@@ -403,7 +403,7 @@ PROPS = {
    technique='exhaustive enumeration of all 8/16-bit values x all multiples / shift counts / bit counts (and all 2^32 16-bit interleave pairs, thorough) on the real functions against loop-based reference definitions',
    text='Power-of-two family, multiples, findNSB, mask/fill/rotate are decided completely for 8-bit types (every value x every multiple 1..127/255, every shift, every (first,count)) and for all 16-bit values against a set of multiples; 32/64-bit types over boundary lattices; bitfieldInterleave/Deinterleave completely for 8-bit pairs and (thorough) all 2^32 16-bit pairs; gtx integer sqrt/nlz/log2 over all 2^32 ints (thorough). gtx mod(int,int) for both signs of the divisor against x - y floor(x/y).',
    rule='INT8_ALL/INT16_ALL complete, INT32_EDGE/INT64_EDGE lattices (0, +-2^k, +-2^k+-1, runs of ones, complements, patterns) crossed with complete small parameter ranges (multiples, shift 0..w-1, n 1..w+1, OFFBITS). Power-of-two family restricted to x>0 and representable results, multiples to m>=1 and representable results (statement domain); skipped cases are counted as trivial. Float multiples: x=k/4 (k=-200..200) x 9 exactly representable m, all arithmetic exact.'),
- 'C05': dict(src='drivers/c05.cpp', level='exploration', configs=['default', 'intr_avx2'],   # intr_avx2: the popcnt / SIMD code paths of func_integer_simd.inl
+ 'C05': dict(src='drivers/c05.cpp', level='exploration', configs=['default', 'intr_avx2', 'cxx98'],   # intr_avx2: the popcnt / SIMD code paths of func_integer_simd.inl; cxx98: GLM's own make_unsigned substitute (both builtin 64-bit pairs are enumerated)
   
    technique='exhaustive enumeration of every 8- and 16-bit value (and, thorough, all 2^32 32-bit values) x every legal (offset,bits) pair on the real functions, compared with a bit-at-a-time reference model',
    text='bitCount/findLSB/findMSB/bitfieldReverse/bitfieldExtract are decided completely for 8- and 16-bit types (and for 32-bit unary functions in the thorough tier), signed and unsigned, scalar and vec1-4; bitfieldInsert completely for 8-bit and over structured lattices x all (offset,bits) otherwise; 64-bit types and the two-operand 32-bit carry/borrow/extended-multiply functions over boundary lattices (stated as such in evidence). The carry/borrow/extended-multiply functions are also called with their output objects aliasing an operand (GLSL copies in-arguments at the call).',
